@@ -933,6 +933,28 @@ def ite_situations(mk_f, mk_g, mk_h, extra=()):
     return out
 
 
+def const_situations(mks, consts):
+    """every operand position replaced by every constant (the others stay inner nodes on level 1 / 2), plus all-constant
+    tuples: shortcuts and identities that only hold for some constants live here"""
+    out = []
+    k = len(mks)
+    for i in range(k):
+        for cname, c in consts:
+            for lv in ((1,) * k, tuple(1 + (j % 2) for j in range(k))):
+                ops = [c if j == i else mks[j](lv[j]) for j in range(k)]
+                out.append(("operand %d is %s (levels %s)" % (i, cname, "/".join(map(str, lv))), ops))
+    if k == 2:
+        for (an, a), (bn, b) in itertools.product(consts, repeat=2):
+            out.append(("operands %s, %s" % (an, bn), [a, b]))
+    if k == 3:
+        for i, j in ((0, 1), (0, 2), (1, 2)):
+            for (an, a), (bn, b) in itertools.product(consts, repeat=2):
+                ops = [mks[x](1) for x in range(3)]
+                ops[i], ops[j] = a, b
+                out.append(("operands %d, %d are %s, %s" % (i, j, an, bn), ops))
+    return out
+
+
 def deep_node(name, level, mk=None, bottom=3):
     """operand whose children are themselves nodes on every modelled level below (so that what the step passes down
     -- a reduced variable set, a re-tagged cube -- is observable in the denotation of the recursive calls)"""
@@ -961,7 +983,9 @@ def run_bdd(ctx, F, rule):
     for d, nm in sorted(ops.items()):
         if nm not in tables.BDD_SPEC:
             continue
-        n += check_step(ctx, F, rule, spec, mod + "::apply_bin", algos, bin_situations(plain_node("f"), plain_node("g")),
+        KB = [(v, Edge(("T", Enum(tables.BDD.terminal_enum + "::" + v)), None)) for v in ("True", "False")]
+        n += check_step(ctx, F, rule, spec, mod + "::apply_bin", algos,
+                        bin_situations(plain_node("f"), plain_node("g")) + const_situations([plain_node("f"), plain_node("g")], KB),
                         nm, consts={"OP": d}, label="bdd apply_bin<%s>" % nm)
     T = lambda v: Edge(("T", Enum(tables.BDD.terminal_enum + "::" + v)), None)
     var = lambda level: snode("x", level, [T("True"), T("False")])
@@ -970,6 +994,7 @@ def run_bdd(ctx, F, rule):
              ("f is a negated variable above g, h", [nvar(1), plain_node("g")(2), plain_node("h")(2)]),
              ("g is a variable", [plain_node("f")(1), var(2), plain_node("h")(2)]),
              ("h is a variable on f's level", [plain_node("f")(1), plain_node("g")(2), var(1)])]
+    extra += const_situations([plain_node("f"), plain_node("g"), plain_node("h")], [("true", T("True")), ("false", T("False"))])
     n += check_step(ctx, F, rule, spec, mod + "::apply_ite", algos,
                     ite_situations(plain_node("f"), plain_node("g"), plain_node("h"), extra), "Ite", label="bdd apply_ite")
     algos_q = dict(algos)
@@ -1145,6 +1170,8 @@ def run_zbdd(ctx, F, rule):
         sits = bin_situations(plain_node("f"), plain_node("g"))
         sits.append(("g is Base", [plain_node("f")(1), base]))
         sits.append(("f is Base", [base, plain_node("g")(1)]))
+        KZ = [("Base", base), ("Empty", Edge(("T", Enum(tables.ZBDD.terminal_enum + "::Empty")), None))]
+        sits += const_situations([plain_node("f"), plain_node("g")], KZ)
         n += check_step(ctx, F, rule, spec, mod + "::" + fn, algos, sits, nm, label="zbdd " + fn)
     # if-then-else on the Boolean-function view (characteristic functions)
     algos_i = dict(algos)
@@ -1246,6 +1273,10 @@ def run_mtbdd(ctx, F, rule):
         sits = bin_situations(plain_node("f"), plain_node("g"))
         sits.append(("g is a terminal", [plain_node("f")(1), c1]))
         sits.append(("f is a terminal", [c1, plain_node("g")(1)]))
+        for cname, c in (("0", Edge(("T", ("const", 0)), None)), ("1", Edge(("T", ("const", 1)), None)),
+                         ("NaN", Edge(("T", tables.NAN), None))):
+            sits.append(("g is the constant %s" % cname, [plain_node("f")(1), c]))
+            sits.append(("f is the constant %s" % cname, [c, plain_node("g")(1)]))
         n += check_step(ctx, F, rule, spec, mod + "::apply_bin", algos, sits, nm, consts={"OP": d},
                         label="mtbdd apply_bin<%s>" % nm)
     spec2 = Spec(tables.MTBDD, ALG_NUM, mod, root, root + "::MTBDDOp", lambda e, val: tables.num_eval(e.node[1], val),
@@ -1256,6 +1287,14 @@ def run_mtbdd(ctx, F, rule):
     extra = [("g is a terminal", [plain_node("f")(1), c1, plain_node("h")(1)]),
              ("h is a terminal", [plain_node("f")(2), plain_node("g")(1), c2]),
              ("g, h are terminals", [plain_node("f")(1), c1, c2])]
+    # constant branches (0, 1, NaN): identities such as ite(f, g, 0) = f * g hold for finite values only
+    k0, k1, knan = Edge(("T", ("const", 0)), None), Edge(("T", ("const", 1)), None), Edge(("T", tables.NAN), None)
+    for cname, c in (("0", k0), ("1", k1), ("NaN", knan)):
+        extra.append(("h is the constant %s" % cname, [plain_node("f")(1), plain_node("g")(1), c]))
+        extra.append(("g is the constant %s" % cname, [plain_node("f")(1), c, plain_node("h")(1)]))
+        extra.append(("h is the constant %s, g below f" % cname, [plain_node("f")(1), plain_node("g")(2), c]))
+    extra.append(("g = 1, h = 0", [plain_node("f")(1), k1, k0]))
+    extra.append(("g = 0, h = 1", [plain_node("f")(1), k0, k1]))
     n += check_step(ctx, F, rule, spec2, mod + "::apply_ite", algos2,
                     ite_situations(plain_node("f"), plain_node("g"), plain_node("h"), extra), "Ite", label="mtbdd apply_ite")
     algos_r = dict(algos)
@@ -1279,13 +1318,17 @@ def run_tdd(ctx, F, rule):
     for d, nm in sorted(ops.items()):
         if nm not in tables.TDD_SPEC:
             continue
+        KT = [(v, Edge(("T", Enum(tables.TDD.terminal_enum + "::" + v)), None)) for v in ("True", "Unknown", "False")]
         n += check_step(ctx, F, rule, spec, mod + "::apply_bin", algos,
-                        bin_situations(plain_node("f", 3), plain_node("g", 3)), nm, consts={"OP": d},
+                        bin_situations(plain_node("f", 3), plain_node("g", 3)) +
+                        const_situations([plain_node("f", 3), plain_node("g", 3)], KT), nm, consts={"OP": d},
                         label="tdd apply_bin<%s>" % nm)
     U = Edge(("T", Enum(tables.TDD.terminal_enum + "::Unknown")), None)
     f3, g3, h3 = plain_node("f", 3), plain_node("g", 3), plain_node("h", 3)
     extra = [("f is unknown", [U, g3(1), h3(2)]), ("g is unknown", [f3(1), U, h3(1)]), ("h is unknown", [f3(2), g3(1), U]),
              ("f, g are unknown", [U, U, h3(1)]), ("f, h are unknown", [U, g3(1), U])]
+    extra += const_situations([f3, g3, h3], [(v, Edge(("T", Enum(tables.TDD.terminal_enum + "::" + v)), None))
+                                             for v in ("True", "Unknown", "False")])
     n += check_step(ctx, F, rule, spec, mod + "::apply_ite_rec", algos, ite_situations(f3, g3, h3, extra), "Ite",
                     label="tdd apply_ite_rec")
     TT3 = lambda v: Edge(("T", Enum(tables.TDD.terminal_enum + "::" + v)), None)
